@@ -242,7 +242,7 @@ func (s *Sorts) zero(t types.Type) Term {
 	case *types.Slice:
 		return "slice_nil"
 	case *types.Array:
-		return fmt.Sprintf("((as const %s) %s)", s.sortOf(t), s.zero(u.Elem()))
+		return s.constArray(s.sortOf(u.Elem()), s.zero(u.Elem()))
 	case *types.Interface:
 		return "iface_nil"
 	case *types.Struct:
@@ -429,4 +429,25 @@ func ixTerm(off, k Term) Term {
 		return k
 	}
 	return "(ix " + off + " " + k + ")"
+}
+
+// constArray: an Int-indexed array holding v everywhere. cvc5 accepts `as const` only for value
+// literals, so other defaults get a declared array with a defining axiom.
+func (s *Sorts) constArray(elemSort string, v Term) Term {
+	lit := true
+	for _, bad := range []string{"str_empty", "zero_O_", "strlit_"} {
+		if strings.Contains(v, bad) {
+			lit = false
+		}
+	}
+	if lit {
+		return fmt.Sprintf("((as const (Array Int %s)) %s)", elemSort, v)
+	}
+	name := "zarr_" + sanitize(elemSort)
+	if !s.declared[name] {
+		s.declared[name] = true
+		s.decls = append(s.decls, fmt.Sprintf("(declare-const %s (Array Int %s))", name, elemSort))
+		s.axioms = append(s.axioms, fmt.Sprintf("(forall ((zi Int)) (! (= (select %s zi) %s) :pattern ((select %s zi))))", name, v, name))
+	}
+	return name
 }
